@@ -489,6 +489,12 @@ func c03Run(c *lib.Ctx) {
 		thirty = append(thirty, []int{0, 1, 2, 3}[i%4])
 	}
 	subs = append(subs, thirty)
+	// 1027 entries (pool entries repeated; not a multiple of any small shard count): builds that split the work
+	big := make([]int, 1027)
+	for i := range big {
+		big[i] = (i * 5) % uPoolCore
+	}
+	subs = append(subs, big)
 	qsStatic := c03Queries(true)
 	for di, s := range subs {
 		if !c.Mine(int64(di)) {
@@ -505,7 +511,10 @@ func c03Run(c *lib.Ctx) {
 		}
 		ref := buildRef(want)
 		qsDB := qsStatic
-		if len(s) >= 6 {
+		if len(s) > 100 {
+			// every entry of a large database is compared for every query: a short list, the last entries' words among them
+			qsDB = []string{"git", "files", "compress", "mkdir", "café", "git files", "list files folder", "qzx", "version control", "sudo docker", "nohup find core", c03Long[0]}
+		} else if len(s) >= 6 {
 			// long queries aimed at the term cap of this very database (see c03TargetedLong)
 			qsDB = append(append([]string{}, qsStatic...), c03TargetedLong(want)...)
 		}
@@ -646,7 +655,7 @@ func init() {
 	_ = strings.Join
 	lib.Register(&lib.Check{
 		ID: "C03", Level: "model_checking",
-		Rule:      "(a) every subset of <=3 entries of the 31-entry pool (+5 larger sets, two of them made of 12 / 30 entries that share their words) loaded by the real loader x {22 one-word, 90 two-word, 4 long (>10 terms), 3 special} queries (+ for the 3 larger sets - 6, 9 and all 31 entries - three 12-word queries built from the database itself: its four most common words first, then eight words that occur once and sort before / after them, so that the term cap must drop something) x all-platforms on/off x {no boost, boost 2 on the query's last term, boost 2 on its first term}: SearchUniversal(UseNLP=false, Limit>=N) result set and scores against an independent scorer that scans the command texts (parameters read through the accessor: " + accMode + "); (b) every history of length <=3 (quick) / <=4 (thorough) over 28 operations {LoadDatabase x4, LoadDatabaseWithPersonal x12 (absent/empty/1/2-entry notebook), UpdateDatabase x4, direct growth x2, direct shrink, direct assignment of a list of another length, literal construction x2}: the same comparison after the last step for 53 queries x all-platforms on/off, plus NLP-on search compared bit-for-bit with a freshly loaded copy of the same commands. evaluations = searches compared; non-trivial = searches with a non-empty answer",
+		Rule:      "(a) every subset of <=3 entries of the 31-entry pool (+6 larger sets, two of them made of 12 / 30 entries that share their words and one of 1027 entries, searched with 12 queries) loaded by the real loader x {22 one-word, 90 two-word, 4 long (>10 terms), 3 special} queries (+ for the 3 larger sets - 6, 9 and all 31 entries - three 12-word queries built from the database itself: its four most common words first, then eight words that occur once and sort before / after them, so that the term cap must drop something) x all-platforms on/off x {no boost, boost 2 on the query's last term, boost 2 on its first term}: SearchUniversal(UseNLP=false, Limit>=N) result set and scores against an independent scorer that scans the command texts (parameters read through the accessor: " + accMode + "); (b) every history of length <=3 (quick) / <=4 (thorough) over 28 operations {LoadDatabase x4, LoadDatabaseWithPersonal x12 (absent/empty/1/2-entry notebook), UpdateDatabase x4, direct growth x2, direct shrink, direct assignment of a list of another length, literal construction x2}: the same comparison after the last step for 53 queries x all-platforms on/off, plus NLP-on search compared bit-for-bit with a freshly loaded copy of the same commands. evaluations = searches compared; non-trivial = searches with a non-empty answer",
 		Assume:    []string{"host platform pinned to linux (vhost), map order pinned (vmap)", "tokenizer reference composed from the repository's exported NormalizeText and StopWords", "for >10 terms only the stated envelope is required"},
 		QuickSecs: 150, ThorSecs: 1500, Graph: true,
 		Run: c03Run, Replay: c03Replay,
